@@ -90,6 +90,15 @@ CORPUS = {
     "global-derived-after-branch-and-loop": S("base = 3\nc = 1\nif c > 0:\n    base = 10\nlimit = base + 1\nfor i in range(2):\n    base = base * 2\ntop = base + limit\nmon.write(limit)\nmon.write(top)\nwhile True:\n    mon.write(top + limit)\n    sleep(1)\n"),
     "global-derived-chain": S("a = 1\na = 4\nb = a + 1\nb = b * 2\nc = a + b\nmon.write(c)\n"),
     "chained-comparison-runtime": S("lo = 2\nv = 0\nhi = 6\nwhile True:\n    if lo <= v < hi:\n        mon.write('in')\n    else:\n        mon.write('out')\n    k = 0\n    while 0 <= k < v:\n        k = k + 1\n    mon.write(k)\n    mon.write(1 < v <= 3)\n    v = v + 1\n    sleep(1)\n"),
+    "first-assignment-from-side-effecting-call": S("def noisy(v):\n    mon.write('call')\n    return v + 1\ndef wrap(k):\n    inner = noisy(k)\n    return inner * 2\nn = 0\nwhile True:\n    got = noisy(n)\n    mon.write(got)\n"
+                                                   "    for i in range(2):\n        step = noisy(i)\n        mon.write(step)\n    if n > 0:\n        late = noisy(n + 10)\n        mon.write(late)\n    w = wrap(n)\n    mon.write(w)\n    n = n + 1\n    sleep(1)\n"),
+    "list-remove-duplicates": S("xs = [1, 2, 1, 3, 1]\nxs.remove(1)\nmon.write(xs[0])\nmon.write(xs[1])\nmon.write(xs[3])\n"),
+    "nested-if-else-inside-if-without-else": S("n = 0\nwhile True:\n    n = n + 1\n    if n > 0:\n        fresh = n * 2\n        if n % 2 == 0:\n            mon.write('on')\n        else:\n            mon.write('off')\n        mon.write(fresh)\n    sleep(1)\n"),
+    "nested-if-else-inside-elif-chain": S("n = 0\nwhile True:\n    n = n + 1\n    if n > 5:\n        mon.write('big')\n    elif n > 0:\n        tag = n + 100\n        if n % 2 == 0:\n            mon.write('e')\n        else:\n            mon.write('o')\n        mon.write(tag)\n    sleep(1)\n"),
+    "identifiers-starting-with-from-and-import": S("from_level = 3\nimported = 1\ndef important_step(v):\n    mon.write('imp')\n    return v + 1\nwhile True:\n    from_level = from_level + 1\n    imported += 2\n    important_step(from_level)\n    mon.write(from_level + imported)\n    sleep(1)\n"),
+    "two-swaps-in-one-block": S("a = 1\nb = 2\nc = 3\nd = 4\nwhile True:\n    a, b = b, a\n    c, d = d, c\n    a, c = c, a\n    mon.write(a)\n    mon.write(b)\n    mon.write(c)\n    mon.write(d)\n    sleep(1)\n"),
+    "mutually-recursive-helpers": S("def even(n):\n    if n == 0:\n        return 1\n    return odd(n - 1)\ndef odd(n):\n    if n == 0:\n        return 0\n    return even(n - 1)\nk = 0\nwhile True:\n    r = even(k)\n    mon.write(r)\n    k = k + 1\n    sleep(1)\n"),
+    "helper-continue-in-value-returning-loop": S("def count_odd(n):\n    c = 0\n    for i in range(n):\n        if i % 2 == 0:\n            continue\n        c = c + 1\n    return c\nk = 2\nwhile True:\n    r = count_odd(k)\n    mon.write(r)\n    k = k + 1\n    sleep(1)\n"),
     # ---- sleeps
     "sleep-expression": S("d = 10\nwhile True:\n    sleep(d)\n    sleep(d * 2)\n    mon.write(d)\n    d = d + 5\n"),
     "sleep-in-branches": S("k = 0\nwhile True:\n    if k % 2 == 0:\n        sleep(100)\n    else:\n        sleep(250)\n    k = k + 1\n    mon.write(k)\n"),
